@@ -336,7 +336,10 @@ def ob_eval_functions_loops(canary=False):
     fn = extract.get(common.GROUP_PATH, "_GroupElem._Eval_Functions")
     node = fn.node
     if canary:
-        src = textwrap.dedent(fn.source).replace("function_nPe[f](*gaussPoints[p])", "function_nPe[f](*gaussPoints[n])")
+        # the canary tests the VC machinery, not the tree: a fill nest of the accepted shape with the wrong point index on the right-hand side
+        src = ("def _Eval_Functions(functions, gaussPoints):\n    nPg = gaussPoints.shape[0]\n    nPe = functions.shape[0]\n    nF = functions.shape[1]\n"
+               "    evalFunctions = np.zeros((nPg, nF, nPe))\n    for p in range(nPg):\n        for n, function_nPe in enumerate(functions):\n            for f in range(nF):\n"
+               "                evalFunctions[p, f, n] = function_nPe[f](*gaussPoints[n])\n    return evalFunctions\n")
         node = [x for x in _ast.walk(_ast.parse(src)) if isinstance(x, _ast.FunctionDef)][0]
     res = loopvc.verify_fill(node, "functions[n, f](*gaussPoints[p])", (("shape", "gaussPoints", 0), ("shape", "functions", 1), ("shape", "functions", 0)))
     bad = [(nm, st) for nm, st, _ in res if st != "proved"]
@@ -353,6 +356,27 @@ def ob_eval_functions_loops(canary=False):
     if bad:
         raise Unsupported(f"z3 left {bad} undecided")
     return Verdict(DISCHARGED, backend="loop contract (lexicographic fill invariant) + z3", sub=len(res), solver_s=sum(t for *_, t in res))
+
+
+def ob_eval_dtype(et):
+    """the evaluator behind every Get_*_pg: the tables evaluated at points given with an INTEGER dtype (the reference nodes the library itself hands out as int64, the centre
+    (0, 0), lattice points) are the tables evaluated at the same points as floats -- the result is a float array, whatever the type of the coordinates"""
+    from . import patches
+    mesh = patches.two_element_mesh(et)
+    g = mesh.groupElem
+    loc = np.asarray(g.Get_Local_Coords())
+    pts = np.unique(np.round(loc).astype(np.int64), axis=0)            # integer lattice points of the reference element (its integer-valued nodes among them)
+    n = 0
+    for name in ("_N", "_dN", "_ddN"):
+        tab = getattr(g, name)()
+        a = np.asarray(g._Eval_Functions(tab, pts))
+        b = np.asarray(g._Eval_Functions(tab, pts.astype(float)))
+        n += 1
+        if a.shape != b.shape or not np.array_equal(a.astype(float), b):
+            k = np.argwhere(a.astype(float) != b)[0]
+            raise Refuted(f"{et}: {name} evaluated at the integer-typed point {pts[k[0]].tolist()} gives {a[tuple(k)]!r} (dtype {a.dtype}), at the same point as floats {b[tuple(k)]!r}",
+                          cex=dict(elemType=et, table=name, point=pts[k[0]].tolist()), signature=f"eval:dtype:{name}", replay=dict(confirmed=True))
+    return Verdict(DISCHARGED, backend="native", sub=n)
 
 
 def ob_accessors(et):
@@ -415,6 +439,9 @@ def build(tier, seed):
     obs.append(Ob("C06._Eval_Functions.loops", ob_eval_functions_loops, (), "P", (f"{common.GROUP_PATH}::_GroupElem._Eval_Functions",),
                   clause="forall nPg, nF, nPe: out[p, f, n] == functions[n, f](*gaussPoints[p]) for every index within the bounds, shape (nPg, nF, nPe): loop contract, 8 verification conditions"))
     obs.append(Ob("canary.eval.loops", ob_eval_functions_loops, (True,), "P", expect=REFUTED))
+    for et in ("SEG3", "TRI6", "QUAD4", "QUAD8", "HEXA20", "PRISM6"):
+        obs.append(Ob(f"C06.eval.dtype.{et}", ob_eval_dtype, (et,), "X", (f"{common.GROUP_PATH}::_GroupElem._Eval_Functions",), bound="integer lattice points of the reference element, tables N, dN, ddN",
+                      clause="tables evaluated at integer-typed coordinates == at the same coordinates as floats (the loop contract assumes np.zeros(shape) allocates floats)"))
     obs.append(Ob("C06._Eval_Functions", ob_eval_functions, (), "B", (f"{common.GROUP_PATH}::_GroupElem._Eval_Functions",),
                   bound="(nPg,nF,nPe,dim) in {(1,1,2,1),(3,2,4,2),(2,3,5,3),(4,1,3,2)}",
                   clause="out[p,f,n] == functions[n][f](*points[p])"))
